@@ -83,7 +83,7 @@ def prop_catalogue(tier):
         for n in (2, 3) if q else (2, 3, 4):
             add(alg, n, [], D=n - 1, base=0)
     # relation: rows symbolic (repeated rows possible)
-    rel = [(1, 1), (1, 2), (2, 1), (2, 2), (3, 2)] if q else [(1, 1), (1, 3), (2, 1), (2, 2), (2, 3), (3, 2), (3, 3), (2, 4)]
+    rel = [(1, 1), (1, 2), (1, 3), (2, 1), (2, 2), (3, 2)] if q else [(1, 1), (1, 3), (2, 1), (2, 2), (2, 3), (3, 2), (3, 3), (2, 4)]
     for ar, rows in rel:
         add("relation", ar, [S] * (ar * rows), D=2)
     return C
